@@ -27,7 +27,20 @@ def _work(job):
                     out.append({"seed": seed * 10000 + idx, "profile": "sync-fault-cache%s" % cache, "conf": confkw, "lines": rec.lines,
                                 "vlen": rec.vlen, "names": sorted(rec.names), "steps": g.steps + desc, "hdr": rec.header(), "err": None,
                                 "script": None, "nsteps": 0, "fault": (pt[0], pt[3], pt[4], ek, cache)})
-        # scrub: every data read and every parity read
+        # scrub over the array with its pending changes (stripes that are not synced, files changed since the sync): every data
+        # read and every parity read
+        if pending in ("mixed", "partial", "rehash"):
+            flags = ("--test-io-cache", str(caches[0]))
+            pts = faults.fault_points(g.a, "scrub", "-p", "full", *flags)
+            for pt in pts:
+                idx += 1
+                if idx % stride:
+                    continue
+                rec, desc, kind, pos = faults.experiment(g, "scrub", pt, "eio", flags=flags, seed=seed)
+                out.append({"seed": seed * 10000 + idx, "profile": "scrub-pending-fault-cache%s" % caches[0], "conf": confkw, "lines": rec.lines,
+                            "vlen": rec.vlen, "names": sorted(rec.names), "steps": g.steps + desc, "hdr": rec.header(), "err": None,
+                            "script": None, "nsteps": 0, "fault": (pt[0], pt[3], pt[4], "eio", "p%s" % caches[0])})
+        # scrub of the synced array: every data read and every parity read
         g.rec.sync("-E")
         for cache in caches[:2]:
             flags = ("--test-io-cache", str(cache))
@@ -71,7 +84,8 @@ def run(tier):
         jobs = [(s0 + 1, dict(nd=2, np=2, copies=2), "adds", (3, 1), 1),
                 (s0 + 2, dict(nd=3, np=1, copies=2), "mixed", (8, 128), 2),
                 (s0 + 3, dict(nd=2, np=1, copies=2), "tiny", (3, 1), 1),
-                (s0 + 4, dict(nd=2, np=2, copies=2), "partial", (3, 8), 1)]
+                (s0 + 4, dict(nd=2, np=2, copies=2), "partial", (3, 8), 1),
+                (s0 + 5, dict(nd=2, np=1, copies=2), "rehash", (3, 1), 1)]
     else:
         jobs = []
         for i, sh in enumerate([dict(nd=2, np=2, copies=2), dict(nd=3, np=1, copies=2), dict(nd=3, np=3, copies=1), dict(nd=4, np=2, copies=2),
@@ -80,6 +94,7 @@ def run(tier):
                 jobs.append((s0 + 10 + 2 * i + (pending == "mixed"), sh, pending, (1, 3, 8, 128), 1))
             jobs.append((s0 + 40 + i, sh, "tiny", (1, 8), 1))
             jobs.append((s0 + 60 + i, sh, "partial", (3, 128), 1))
+            jobs.append((s0 + 80 + i, sh, "rehash", (1, 8), 1))
     with multiprocessing.Pool(min(8, len(jobs))) as pool:
         res = pool.map(_work, jobs, chunksize=1)
     scs = []
